@@ -346,6 +346,8 @@ func witnesses() []kase {
 		mk("download through a link in a parent directory", request{Op: "download", Path: "@/allowed/link/secret.txt"}),
 		mk("download through an absolute link in a parent directory", request{Op: "download", Path: "@/allowed/abs/secret.txt"}),
 		mk("download with a link as the final component", request{Op: "download", Path: "@/allowed/flink"}),
+		mk("download of a link to a directory with /. appended", request{Op: "download", Path: "@/allowed/link/."}),
+		mk("download of a link to a directory with / appended", request{Op: "download", Path: "@/allowed/abs/"}),
 		mk("upload through a link in a parent directory", request{Op: "upload", Path: "@/allowed/link/evil.txt", Data: "UP"}),
 		mk("upload onto a link as the final component", request{Op: "upload", Path: "@/allowed/flink", Data: "UP"}),
 		mk("upload onto a dangling link", request{Op: "upload", Path: "@/allowed/dangling", Data: "UP"}),
@@ -508,6 +510,10 @@ func main() {
 		// what the request really designates, computed before it runs
 		real := realPath(reqPath)
 		pos := linkPosition(root, reqPath)
+		if k.Req.Op == "download" && pos == "final-link" && (strings.HasSuffix(reqPath, "/.") || strings.HasSuffix(reqPath, "/")) {
+			// "link/." and "link/" make Lstat follow the link, so validateSymlinkTarget sees a directory, not a link
+			pos = "final-link-via-trailing-dot"
+		}
 		before := snapshot(root)
 		var res result
 		pan := vh.Recover(func() { res = run(h, root, k.Req) })
